@@ -7,6 +7,7 @@ import HtpModel.Lemmas.BufInv
 import HtpModel.Lemmas.OutConsumed
 import HtpModel.Lemmas.Owed
 import HtpModel.Lemmas.OwedOut
+import HtpModel.Pinned.Eq
 
 namespace Htp.C09
 open Htp.Conn Htp.Gen
@@ -248,5 +249,9 @@ theorem C09_res_call_invariant (cfg : Cfg) (d : Bytes) (c : Conn) (hs : (d.lengt
 
 example : outBufLen ({} : Conn) ≤ (({} : Cfg).fieldLimitHard) ∧ OwedPosO ({} : Conn) := by
   refine ⟨by decide, ⟨fun e => ?_, fun e => ?_⟩⟩ <;> exact absurd e (by decide)
+
+/-- **C09 (the constants are the reviewed ones)**: every constant the translator reads from the current source - among them the stream state codes -
+    equals its reviewed snapshot (lean/HtpModel/Pinned); the model follows a regenerated constant, so this is what notices a changed one -/
+theorem C09_constants_pinned : Htp.Pinned.ConstantsPinned := Htp.Pinned.constants_pinned
 
 end Htp.C09
